@@ -492,6 +492,7 @@ func indexTop(s, op string) int {
 // Evaluation
 
 type specEnv struct {
+	noTrace bool   // the expression is assumed at a call site: clauses about the callee's own effect trace cannot be interpreted over the caller's trace
 	goal    bool   // the expression is being proved (not assumed): existential spec forms need a witness from the path
 	into    *State // receives memory-model side facts about loaded references (nil: none)
 	st      *State
@@ -570,6 +571,8 @@ func printExpr(b *strings.Builder, x ast.Expr) {
 		fmt.Fprintf(b, "<%T>", x)
 	}
 }
+
+var errTraceClause = fmt.Errorf("clause about the callee's own effect trace: not visible to callers")
 
 func pureSV(t Term) SV { return SV{L: []Term{t}} }
 
@@ -1122,8 +1125,14 @@ func (e *Exec) evalSpecCall(n *ast.CallExpr, env *specEnv) (SV, error) {
 		case "isJoin":
 			return e.evalIsJoin(n, env)
 		case "nev":
+			if env.noTrace {
+				return SV{}, errTraceClause
+			}
 			return pureSV(IntLit(int64(len(env.st.events)))), nil
 		case "forallEv", "existsEv":
+			if env.noTrace {
+				return SV{}, errTraceClause
+			}
 			// static expansion over the events of this path
 			if len(n.Args) < 2 {
 				return SV{}, fmt.Errorf("%s needs binders and a body", id.Name)
